@@ -66,6 +66,8 @@ type asCtx struct {
 	decs   []int
 	decIdx int
 	gens   int // actor instances the provider has supplied so far (instance 0 is the one given to ActorOf)
+	// a restart hook (OnRestarted / OnPrelaunch of the restart) has failed: the actor must be a zombie from now on
+	hookFailed string
 }
 
 type asEngine struct {
@@ -209,6 +211,7 @@ func (a *asActor) OnPrelaunch(ctx vivid.PrelaunchContext) error {
 		return nil
 	}
 	if a.c.hooks&2 != 0 {
+		a.c.hookFailed = "OnPrelaunch"
 		return fmt.Errorf("scripted prelaunch failure on restart")
 	}
 	if a.c.restOK {
@@ -228,6 +231,7 @@ func (a *asActor) OnPreRestart(ctx vivid.RestartContext) error {
 func (a *asActor) OnRestarted(ctx vivid.RestartContext) error {
 	a.c.restOK = a.c.hooks&4 == 0
 	if !a.c.restOK {
+		a.c.hookFailed = "OnRestarted"
 		return fmt.Errorf("scripted restarted failure")
 	}
 	return nil
@@ -302,6 +306,10 @@ func (e *asEngine) behave(c *asCtx, ctx vivid.ActorContext, sid int) {
 	}
 	e.events = append(e.events, fmt.Sprintf("seen:%d:%d:%d", c.cid, c.inc, trig))
 	e.seen[c.cid] = append(e.seen[c.cid], fmt.Sprintf("%d:%d", c.inc, trig))
+	// C09: once a restart hook has failed the actor is a zombie: it runs no user code any more
+	if c.hookFailed != "" && e.viol == "" {
+		e.viol = fmt.Sprintf("ZOMBIE-RUNS-USER-CODE: context %d (%s): its restart hook %s failed, yet its behaviour is run on trigger %d afterwards (a failed restart must leave a zombie that runs no user code)", c.cid, c.path, c.hookFailed, trig)
+	}
 	if trig >= 100 && trig < 200 {
 		e.markUser(mid, 1)
 	}
